@@ -507,6 +507,17 @@ func TestC19(t *testing.T) {
 		writeFile(p, "batches "+strings.Join(batches, ",")+"\nmodel "+want+"\nimpl  "+strings.Join(gotT, ","))
 		st.Violate(Violation{What: "adaptive window trajectory differs from the model: batches " + strings.Join(batches, ",") + " model " + want + " impl " + strings.Join(gotT, ","), Replay: p, FoundInput: false, Sig: "correspondence"})
 	}
+	if len(st.Violations) == 0 {
+		if what := pushOutcomeRouting(st, Seed()); what != "" {
+			p := ReplayPath(fmt.Sprintf("C19-outcome-routing-%d.txt", Seed()))
+			writeFile(p, what)
+			st.Violate(Violation{What: what, Replay: p, FoundInput: true, Sig: "outcome-routing"})
+		}
+	}
+	// window arithmetic, batch by batch, against the model (w8_test.go)
+	if len(st.Violations) == 0 {
+		pushWindowArithmetic(t, st, m)
+	}
 	if corrBroken != "" && len(st.Violations) == 0 {
 		p := ReplayPath(fmt.Sprintf("C19-status-correspondence-%d.txt", Seed()))
 		writeFile(p, corrBroken)
